@@ -21,14 +21,14 @@ import (
 
 func init() { register(&Check{ID: "C19", Run: runC19}) }
 
-var c19Chars = []string{"a", "é", "€", "0", "1", "x", "-", "\"", "`", " ", "\t", "\n", "\r", "#", "/", "=", "!", "(", ":"}
+var c19Chars = []string{"a", "é", "€", "٣", "0", "1", "x", "-", "\"", "`", " ", "\t", "\n", "\r", "#", "/", "=", "!", "(", ":"}
 
-var c19Seps = []string{" ", "\t", "\n", "\r\n", "  ", "\n\n", "# c\n", "// c\n", " # é\r\n\t"}
+var c19Seps = []string{" ", "\t", "\n", "\r\n", "  ", "\n\n", "# c\n", "// c\n", " # é\r\n\t", "# c\n \t# d\n", "// c\n\n  // d\n// e\n"}
 
 var c19Lexemes = []string{
 	"script", "raw", "text", "movement", "mart", "mapscripts", "format", "var", "flag", "defeated", "TRUE", "FALSE", "true", "if", "else", "elif", "do", "while", "break", "continue", "switch", "case", "default", "global", "local", "poryswitch", "const", "value", "moves",
 	"abc", "A_1", "é1", "_", "5", "-1", "0", "0x1F", "007", "\"s t\"", "\"\"", "ascii\"x\"", "`r w`",
-	"=", "==", "!=", "<", ">", "<=", ">=", "&&", "||", "!", "*", ",", ":", "(", ")", "{", "}", "[", "]", "+", "€", "&", "-",
+	"=", "==", "!=", "<", ">", "<=", ">=", "&&", "||", "!", "*", ",", ":", "(", ")", "{", "}", "[", "]", "+", "€", "&", "-", "٣", "%",
 }
 
 type ltok struct {
@@ -300,6 +300,7 @@ func runC19(tier string) int {
 			if L <= 3 {
 				c19Check(r, "\n"+strings.Join(parts, "\n\t")+"\n", true)
 				c19Check(r, strings.Join(parts, " # c\r\n"), L <= 2)
+				c19Check(r, strings.Join(parts, " // c\n \t# d\n\n  // e\n"), L <= 2)
 			}
 		})
 		if done {
@@ -346,5 +347,5 @@ func runC19(tier string) int {
 		"gaps are taken between tokens as the lexer itself reports them; a string-type prefix and the quote after it are one lexical unit; the white space and comments between the parts of a multi-part string are inside one token",
 		"inputs on which the lexer panics are counted and left to C18")
 	return r.Finish(r.Get("evaluations"), r.Get("nontrivial"),
-		"(a) every string of <= N characters over 19 characters (letters incl. multi-byte, a multi-byte non-letter, digits, x, -, quote, backtick, space, tab, LF, CR, #, /, =, !, (, :); (b) every sequence of <= M lexemes from a 65-lexeme alphabet (all keywords, identifiers, numbers incl. hex/negative/leading zero, strings, typed string, raw string, every operator and delimiter, illegal characters) in 4 layouts; each input: position oracle on every token, then every gap replaced by each of 9 separators (spaces, tab, LF, CRLF, blank line, # and // comments) and re-lexed; (c) C16's corpus programs compiled under every single-gap layout change; non-trivial = >= 2 tokens and a line break or multi-byte character")
+		"(a) every string of <= N characters over 20 characters (letters incl. multi-byte, a multi-byte non-letter, ASCII and non-ASCII digits, x, -, quote, backtick, space, tab, LF, CR, #, /, =, !, (, :); (b) every sequence of <= M lexemes from a 65-lexeme alphabet (all keywords, identifiers, numbers incl. hex/negative/leading zero, strings, typed string, raw string, every operator and delimiter, illegal characters) in 5 layouts; each input: position oracle on every token, then every gap replaced by each of 11 separators (spaces, tab, LF, CRLF, blank line, # and // comments, runs of several comment lines with indentation) and re-lexed; (c) C16's corpus programs compiled under every single-gap layout change; non-trivial = >= 2 tokens and a line break or multi-byte character")
 }
